@@ -38,6 +38,18 @@ class _DetTempDir:
 
 
 tempfile.TemporaryDirectory = _DetTempDir
+
+
+def _det_mkdtemp(suffix=None, prefix=None, dir=None):
+    "tempfile.mkdtemp without randomness; the directory is tracked like the TemporaryDirectory ones"
+    _counter[0] += 1
+    name = str(Path(dir) / f"tmp{_counter[0]}") if dir else str(BASE / f"tmp{_counter[0]}")
+    os.makedirs(name, exist_ok=True)
+    _DetTempDir.created.append(name)
+    return name
+
+
+tempfile.mkdtemp = _det_mkdtemp
 # gettempdir() probes candidate directories with random file names; resolve it deterministically instead
 tempfile._get_default_tempdir = lambda *a, **k: str(BASE)
 
@@ -65,14 +77,24 @@ def _dataset_class(backend):
     return CMSRun2miniAODDataset, "Muons", None
 
 
-def _setup(nfiles, second_dir_for, missing):
+SECOND_DIRS = ["d2", "d1_more", "d1/sub"]      # an unrelated sibling, a sibling whose PATH STRING extends the first one's, a sub-directory
+
+
+def _setup(nfiles, second_dir_for, missing, second_kind=0):
     shutil.rmtree(BASE, ignore_errors=True)
     (BASE / "d1").mkdir(parents=True)
-    (BASE / "d2").mkdir(parents=True)
+    for sd in SECOND_DIRS:
+        (BASE / sd).mkdir(parents=True, exist_ok=True)
     (BASE / "out").mkdir(parents=True)
     files = []
+    second = SECOND_DIRS[0]
+    k = 0
+    while k < len(SECOND_DIRS):
+        if k == second_kind:
+            second = SECOND_DIRS[k]
+        k += 1
     for i in range(nfiles):
-        d = BASE / ("d2" if i == second_dir_for else "d1")
+        d = BASE / (second if i == second_dir_for else "d1")
         f = d / f"file{i}.root"
         if i != missing:
             f.write_text("data")
@@ -88,9 +110,9 @@ def _query(coll, md_image):
 
 
 def _run(backend, nfiles, second_dir_for, missing, image, tag, has_md, give_out, nchunks, stderr_first, fail_after, write_result, tempdir_known,
-         write_early=False, md_images=None):
+         write_early=False, md_images=None, second_kind=0):
     cls, coll, cache = _dataset_class(backend)
-    files = _setup(nfiles, second_dir_for, missing)
+    files = _setup(nfiles, second_dir_for, missing, second_kind)
     SCENARIO.reset()
     SCENARIO.chunks = [(("stderr" if (stderr_first and i == 0) else "stdout"), b"line") for i in range(nchunks)]
     SCENARIO.fail_after = fail_after if fail_after >= 0 else None
@@ -172,12 +194,12 @@ def constructor_validates_files(backend: int, nfiles: int, missing: int) -> bool
     return _run(backend, nfiles, -1, missing, "img", "t1", False, True, 0, False, -1, True, True)
 
 
-def same_directory_required(backend: int, nfiles: int, second_dir_for: int) -> bool:
+def same_directory_required(backend: int, nfiles: int, second_dir_for: int, second_kind: int) -> bool:
     """
-    pre: 0 <= backend <= 2 and 1 <= nfiles <= 3 and -1 <= second_dir_for <= 2
+    pre: 0 <= backend <= 2 and 1 <= nfiles <= 3 and -1 <= second_dir_for <= 2 and 0 <= second_kind <= 2
     post: _
     """
-    return _run(backend, nfiles, second_dir_for, -1, "img", "t1", False, True, 1, False, -1, True, True)
+    return _run(backend, nfiles, second_dir_for, -1, "img", "t1", False, True, 1, False, -1, True, True, second_kind=second_kind)
 
 
 def image_selection(backend: int, image: str, tag: str, has_md: bool) -> bool:
